@@ -32,6 +32,7 @@ import (
 	mempl "github.com/tendermint/tendermint/mempool"
 	mpmock "github.com/tendermint/tendermint/mempool/mock"
 	mpv0 "github.com/tendermint/tendermint/mempool/v0"
+	mpv1 "github.com/tendermint/tendermint/mempool/v1"
 	"github.com/tendermint/tendermint/p2p"
 	"github.com/tendermint/tendermint/p2p/conn"
 	p2pmock "github.com/tendermint/tendermint/p2p/mock"
@@ -181,8 +182,18 @@ func newNode(kind string, mode string, nvals int) (n *node, err error) {
 				time.Sleep(time.Millisecond)
 			}
 		}
+	case "mempoolv1":
+		c.Mempool.Size = 64
+		c.Mempool.MaxTxBytes = 64
+		mp := mpv1.NewTxMempool(nopLogger, c.Mempool, proxyApp.Mempool(), 0)
+		r := mpv1.NewReactor(c.Mempool, mp)
+		r.SetLogger(nopLogger)
+		n.sw.AddReactor("MEMPOOL", r)
+		n.reactor = r
+		r.InitPeer(n.peer)
 	case "mempool":
 		c.Mempool.Size = 64 // small pool so that a flood fills it
+		c.Mempool.MaxTxBytes = 64
 		mp := mpv0.NewCListMempool(c.Mempool, proxyApp.Mempool(), 0)
 		r := mpv0.NewReactor(c.Mempool, mp)
 		r.SetLogger(nopLogger)
@@ -218,10 +229,10 @@ func newNode(kind string, mode string, nvals int) (n *node, err error) {
 		}
 		n.stop = append(n.stop, func() { r.Stop() }) //nolint
 		n.reactor = r
-	case "pex":
+	case "pex", "pexseed":
 		book := pex.NewAddrBook(filepath.Join(dir, "addrbook.json"), false)
 		book.SetLogger(nopLogger)
-		r := pex.NewReactor(book, &pex.ReactorConfig{})
+		r := pex.NewReactor(book, &pex.ReactorConfig{SeedMode: kind == "pexseed"})
 		r.SetLogger(nopLogger)
 		n.sw.AddReactor("PEX", r)
 		n.reactor = r
@@ -232,7 +243,7 @@ func newNode(kind string, mode string, nvals int) (n *node, err error) {
 	// a second, well-behaved peer for the liveness probes
 	n.pPeer = p2pmock.NewPeer(net.IPv4(10, 8, 0, 1))
 	n.stop = append(n.stop, func() { n.pPeer.Stop() }) //nolint
-	if ip, ok := n.reactor.(interface{ InitPeer(p2p.Peer) p2p.Peer }); ok && kind != "pex" {
+	if ip, ok := n.reactor.(interface{ InitPeer(p2p.Peer) p2p.Peer }); ok && kind != "pex" && kind != "pexseed" {
 		ip.InitPeer(n.pPeer)
 	}
 	fromProbePeer := func(ch byte, b []byte) func() {
@@ -251,7 +262,7 @@ func newNode(kind string, mode string, nvals int) (n *node, err error) {
 			fromProbePeer(0x22, consMsg(&tmcons.Vote{Vote: farVote.ToProto()})),
 			func() { n.cs.GetRoundState() },
 		}
-	case "mempool":
+	case "mempool", "mempoolv1":
 		n.probes = []func(){fromProbePeer(0x30, mustMarshal(&mpproto.Message{Sum: &mpproto.Message_Txs{Txs: &mpproto.Txs{Txs: [][]byte{[]byte("probe=1")}}}}))}
 	case "evidence":
 		n.probes = []func(){fromProbePeer(0x38, mustMarshal(&tmproto.EvidenceList{}))}
@@ -327,6 +338,11 @@ func (n *node) receive(ch byte, b []byte) string {
 	}()
 	select {
 	case v := <-res:
+		if n.kind == "pexseed" {
+			for i := 0; i < 200 && n.peer.IsRunning(); i++ {
+				time.Sleep(time.Millisecond)
+			}
+		}
 		if v == "ok" && !n.peer.IsRunning() {
 			v = "stopped"
 		}
@@ -1141,6 +1157,85 @@ func (p *merkleProof) proto(r *rand.Rand) *tmcrypto.Proof {
 	return &tmcrypto.Proof{Total: p.total, Index: p.index, LeafHash: rbytes(r, 32), Aunts: [][]byte{rbytes(r, 32)}}
 }
 
+// decClass says how garbage decodes for a reactor's wrapper type
+func decClass(kind string, b []byte) string {
+	var err error
+	nosum := false
+	switch kind {
+	case "mempool", "mempoolv1":
+		m := &mpproto.Message{}
+		if err = proto.Unmarshal(b, m); err == nil {
+			_, e2 := m.Unwrap()
+			nosum = e2 != nil
+		}
+	case "blockchain":
+		m := &bcproto.Message{}
+		if err = proto.Unmarshal(b, m); err == nil {
+			_, e2 := m.Unwrap()
+			nosum = e2 != nil
+		}
+	case "statesync":
+		m := &ssproto.Message{}
+		if err = proto.Unmarshal(b, m); err == nil {
+			_, e2 := m.Unwrap()
+			nosum = e2 != nil
+		}
+	case "pex", "pexseed":
+		m := &tmp2pp.Message{}
+		if err = proto.Unmarshal(b, m); err == nil {
+			_, e2 := m.Unwrap()
+			nosum = e2 != nil
+		}
+	}
+	switch {
+	case err != nil:
+		return "bad"
+	case nosum:
+		return "nosum"
+	}
+	return "msg"
+}
+
+// evItems classifies the items of an EvidenceList the way evidenceListFromProto sees them:
+// c = does not convert, v = converts but fails ValidateBasic, i = goes to the pool (which, for
+// evidence this harness can build, rejects it as invalid)
+func evItems(l *tmproto.EvidenceList) string {
+	if len(l.Evidence) == 0 {
+		return "-"
+	}
+	var out []string
+	for i := range l.Evidence {
+		ev, err := types.EvidenceFromProto(&l.Evidence[i])
+		switch {
+		case err != nil:
+			out = append(out, "c")
+		case ev.ValidateBasic() != nil:
+			out = append(out, "v")
+		default:
+			out = append(out, "i")
+		}
+	}
+	return strings.Join(out, ",")
+}
+
+func dupVoteEvidence(r *rand.Rand, n *node, ordered bool) tmproto.Evidence {
+	pk, _ := n.vals[0].GetPubKey()
+	mk := func(seed byte) *types.Vote {
+		return &types.Vote{Type: tmproto.PrecommitType, Height: 1, Round: 0,
+			BlockID:   types.BlockID{Hash: bytesOf(32, seed), PartSetHeader: types.PartSetHeader{Total: 1, Hash: bytesOf(32, seed+1)}},
+			Timestamp: time.Unix(1600000007, 0).UTC(), ValidatorAddress: pk.Address(), ValidatorIndex: 0, Signature: rbytes(r, 64)}
+	}
+	a, b := mk(1), mk(50)
+	if a.BlockID.Key() > b.BlockID.Key() {
+		a, b = b, a
+	}
+	if !ordered {
+		a, b = b, a
+	}
+	dve := &types.DuplicateVoteEvidence{VoteA: a, VoteB: b, TotalVotingPower: 40, ValidatorPower: 10, Timestamp: time.Unix(1600000000, 0).UTC()}
+	return tmproto.Evidence{Sum: &tmproto.Evidence_DuplicateVoteEvidence{DuplicateVoteEvidence: dve.ToProto()}}
+}
+
 // other reactors: garbage and a few decodable hostile messages per reactor
 func genOtherCase(r *rand.Rand, kind string) []string {
 	n, err := newNode(kind, "", 0)
@@ -1158,11 +1253,38 @@ func genOtherCase(r *rand.Rand, kind string) []string {
 		garbage := func() {
 			b = make([]byte, r.Intn(30))
 			r.Read(b)
+			if kind == "evidence" {
+				l := &tmproto.EvidenceList{}
+				if err := proto.Unmarshal(b, l); err != nil {
+					k, fields = "ev-list", "dec=bad items=- "
+				} else {
+					k, fields = "ev-list", "dec=msg items="+evItems(l)+" "
+				}
+				return
+			}
+			if d := decClass(kind, b); d != "msg" {
+				k, fields = "garbage", "dec="+d+" "
+			}
 		}
 		switch kind {
-		case "mempool":
+		case "mempool", "mempoolv1":
 			ch = 0x30
-			switch r.Intn(3) {
+			switch r.Intn(4) {
+			case 3: // many txs, some oversized (MaxTxBytes = 64), some repeated
+				var txs [][]byte
+				for j := 0; j < 1+r.Intn(80); j++ {
+					switch r.Intn(4) {
+					case 0:
+						txs = append(txs, rbytes(r, 65+r.Intn(100)))
+					case 1:
+						txs = append(txs, []byte("dup=1"))
+					default:
+						txs = append(txs, []byte(fmt.Sprintf("k%d=%d", r.Intn(200), j)))
+					}
+				}
+				b = mustMarshal(&mpproto.Message{Sum: &mpproto.Message_Txs{Txs: &mpproto.Txs{Txs: txs}}})
+				k = "mp-txs"
+				fields = fmt.Sprintf("n=%d ", len(txs))
 			case 0:
 				garbage()
 			case 1:
@@ -1181,10 +1303,24 @@ func genOtherCase(r *rand.Rand, kind string) []string {
 				garbage()
 			case 1:
 				b = mustMarshal(&tmproto.EvidenceList{})
-				k = "opaque-empty-list"
+				k, fields = "ev-list", "dec=msg items=- "
 			default:
-				b = mustMarshal(&tmproto.EvidenceList{Evidence: []tmproto.Evidence{{}, {Sum: &tmproto.Evidence_DuplicateVoteEvidence{DuplicateVoteEvidence: &tmproto.DuplicateVoteEvidence{TotalVotingPower: hostileInt64(r), ValidatorPower: hostileInt64(r)}}}}})
-				k = "opaque-hostile-evidence"
+				var items []tmproto.Evidence
+				for j := 0; j < 1+r.Intn(3); j++ {
+					switch r.Intn(5) {
+					case 0:
+						items = append(items, tmproto.Evidence{})
+					case 1:
+						items = append(items, tmproto.Evidence{Sum: &tmproto.Evidence_DuplicateVoteEvidence{DuplicateVoteEvidence: &tmproto.DuplicateVoteEvidence{TotalVotingPower: hostileInt64(r), ValidatorPower: hostileInt64(r)}}})
+					case 2:
+						items = append(items, dupVoteEvidence(r, n, false)) // votes in the wrong order
+					default:
+						items = append(items, dupVoteEvidence(r, n, true)) // well-formed, unverifiable
+					}
+				}
+				l := &tmproto.EvidenceList{Evidence: items}
+				b = mustMarshal(l)
+				k, fields = "ev-list", "dec=msg items="+evItems(l)+" "
 			}
 		case "blockchain":
 			ch = 0x40
@@ -1208,7 +1344,7 @@ func genOtherCase(r *rand.Rand, kind string) []string {
 				fields = fmt.Sprintf("h=%d ", h)
 			case 4:
 				b = mustMarshal(&bcproto.Message{Sum: &bcproto.Message_BlockResponse{BlockResponse: &bcproto.BlockResponse{Block: &tmproto.Block{Header: tmproto.Header{Height: hostileInt64(r)}}}}})
-				k = "opaque-blockresponse"
+				k, fields = "bc-blockresponse", "converts=false "
 			default:
 				b = mustMarshal(&bcproto.Message{Sum: &bcproto.Message_StatusRequest{StatusRequest: &bcproto.StatusRequest{}}})
 				k = "bc-statusrequest"
@@ -1237,7 +1373,7 @@ func genOtherCase(r *rand.Rand, kind string) []string {
 				b = mustMarshal(&ssproto.Message{Sum: &ssproto.Message_SnapshotsRequest{SnapshotsRequest: &ssproto.SnapshotsRequest{}}})
 				k = "ss-snapshotsrequest"
 			}
-		case "pex":
+		case "pex", "pexseed":
 			ch = 0x00
 			switch r.Intn(4) {
 			case 0:
@@ -1290,7 +1426,7 @@ func genReactor(r *rand.Rand, emit func(core.Case), tier string) {
 		emit(core.Case{Kind: "reactor", Ops: []string{"reactor kind=" + k,
 			fmt.Sprintf("flood peers=%d per=%d mix=plain expect=alive", 3, 150), "health"}})
 	}
-	for _, k := range []string{"mempool", "evidence", "blockchain", "statesync", "pex"} {
+	for _, k := range []string{"mempool", "mempoolv1", "evidence", "blockchain", "statesync", "pex", "pexseed"} {
 		for i := 0; i < no; i++ {
 			emit(core.Case{Kind: "reactor", Ops: genOtherCase(r, k)})
 		}
